@@ -234,6 +234,12 @@ def methodC (w : Inputs) : Value → String → List Value → St → Option Res
     | .struct "ShmHeader" fs => some (.val (.struct "ShmHeader" fs) { st with pos := st.pos + 1 })
     | _ => none
   | .enumv "addr:segment" [], "cast", [], st => some (.val (addr "segment") st)
+  -- `<*const ShmHeader>::add(self, n)`: `n` ELEMENTS, i.e. `n * size_of::<ShmHeader>()` bytes past the segment
+  | .ext "ptr:ShmHeader" [], "add", [.int _ n], st =>
+    match w.sizes.lookup "ShmHeader" with
+    | some k => if 0 ≤ n then some (.val (addrPlus (.int .usize (n * (k : Int)))) st) else none
+    | none => none
+  | .ext "ptr:ShmHeader" [], "cast", [], st => some (.val (.ext "ptr:ShmHeader" []) st)
   | .enumv "addr:segment" [], "add", [n], st => some (.val (addrPlus n) st)
   -- `(segment + n).cast::<ClockErrorBound>()`: the pointer to the record of the mapped segment PROVIDED `n` is
   -- `size_of::<ShmHeader>()` (the record follows the header; the size comes from the table of the statement)
@@ -249,6 +255,8 @@ def methodC (w : Inputs) : Value → String → List Value → St → Option Res
 def fieldOfC : Value → String → Option Value
   | .enumv "addr:segment" [], "version" => some (ptrA16 "version")
   | .enumv "addr:segment" [], "generation" => some (ptrA16 "generation")
+  | .ext "ptr:ShmHeader" [], "version" => some (ptrA16 "version")
+  | .ext "ptr:ShmHeader" [], "generation" => some (ptrA16 "generation")
   | _, _ => none
 
 /-- `*p` with `p` the pointer to the record, as the operand of `ptr::addr_of!`: the place of the record, which
@@ -362,6 +370,14 @@ def methodD (w : Inputs) : Value → String → List Value → St → Option Res
   | .str s, "is_empty", [], st => some (.val (.bool (decide (s = ""))) st)
   | _, _, _, _ => none
 
+/-- `let header: *const ShmHeader = <address of the segment>` (or `*mut`): the pointer to the mapped header, TYPED —
+    `header.add(n)` then counts in `ShmHeader`s (`methodC`), `(*header).version` is the version cell (`fieldOfC`).
+    (A `*const u8` / `*mut c_void` … stays the plain address: `add` counts bytes.) -/
+def letPtrD : String → Value → Option Value
+  | "*const ShmHeader", .enumv "addr:segment" [] => some (.ext "ptr:ShmHeader" [])
+  | "*mut ShmHeader", .enumv "addr:segment" [] => some (.ext "ptr:ShmHeader" [])
+  | _, _ => none
+
 /-- `&mut file` on an open `File`: a `File` value is a HANDLE (its state is not in the value, every operation on
     it is an event), so the mutable borrow of the handle is the handle (`write_header(&mut file, size)`) -/
 def refMutD (_ : Inputs) : Value → St → Option Res
@@ -408,6 +424,6 @@ def derefAll (w : Inputs) (v : Value) (st : St) : Option Res :=
     functions of this group (every other literal meets a typed operand and takes its type). -/
 def ext : Ext :=
   { Ext.none with path := pathAll, deref := derefAll, method := method, call := call, macroCall := macroC,
-                  fieldOf := fieldOfC, litFallback := some .i32, refMut := refMutD }
+                  fieldOf := fieldOfC, litFallback := some .i32, refMut := refMutD, letPtr := letPtrD }
 
 end ClockBound.Rs.DictShm
